@@ -1,5 +1,5 @@
 (** C03 — arguments bind one-to-one, in order, to the placeholders. *)
-From Verif Require Import Model.Compile Spec.Placeholders Judge.JQ.
+From Verif Require Import Model.Compile Spec.Placeholders Judge.JQ Model.Shape.
 Open Scope string_scope.
 Open Scope list_scope.
 
@@ -81,4 +81,5 @@ Definition judge_c03 (e : env) (raw : node) (src : string) (impl : result (optio
                | Ok (Some q) => match env_engine e with EPostgres => holds_c03_pg q | EMySQL => holds_c03_my q end
                | _ => true
                end in
-  [b2n (wf_order raw) + 2 * b2n (cte_alias_shared raw); known; b2n holds; outcome_diff (parse_query e raw src false) impl].
+  let raw2 := fst (fst (named_parameters (env_engine e) raw)) in
+  [b2n (wf_order raw && inserts_ok (kid "Stmt" raw2) && shape_ok raw2) + 2 * b2n (cte_alias_shared raw); known; b2n holds; outcome_diff (parse_query e raw src false) impl].
